@@ -353,5 +353,27 @@ class CliGlobalExtras(Stream):
             yield dict(case, global_extras=case["global_extras"][:i] + case["global_extras"][i + 1:])
 
 
+def _entry_codec_base():
+    from rv.props.c06 import EntryCodec
+    return EntryCodec
+
+
+class RenderedEntry(_entry_codec_base()):
+    """one requirer entry as the real `_process_constraint_req` prints it, against the Lean writer `Entry.render`
+    (the codec C06 proves invertible); the oracle reads the printed entry back by itself: requirer, activating extra,
+    specifier clauses and requested extras are exactly the ones of the requirement"""
+    name = "entry-render"
+    quick_n = 400
+    thorough_n = 20000
+
+    def oracle(self, case, r):
+        got = CliGlobalExtras._entry(r["rendered"])
+        acts = sorted(self._canon_extra(a) for a in case["act"])
+        want = (case["name"], ",".join(acts) if acts else None, tuple(sorted(c for c in case["spec"].split(",") if c)), tuple(sorted(case["extras"])))
+        if got != want:
+            return [("C08/entry-does-not-say-what-was-asked", {"printed": r["rendered"], "read": list(map(str, got)), "asked": list(map(str, want))})]
+        return []
+
+
 def streams():
-    return [SS.CompileStream("C08"), RenderedAnnotations(), CliInputNames(), CliGlobalExtras()]
+    return [SS.CompileStream("C08"), RenderedAnnotations(), CliInputNames(), CliGlobalExtras(), RenderedEntry()]
